@@ -418,8 +418,53 @@ class CholeskyFactory(Harness):
                 P.prove(P.eq(s, 0.5 * cell(K, i, j)), "C'C=kinship (so that ||Cc||=sqrt(c'Kc))")
 
 
+class GWFactory(Harness):
+    """generalised weighted GEBV problems built from raw arrays: table = Z.(u * w), w = p^-alpha for a favourable-allele frequency p > 0
+    and 1 where the favourable allele is absent; identical for the four encodings; inputs untouched"""
+    name = "factory-generalised-weights"
+
+    def modules(self):
+        return MODS
+
+    def inputs(self, mk):
+        n, m, t = self.params["n"], self.params["m"], self.params["t"]
+        return dict(Z=mk.real("z", (n, m), lo=0, hi=2), u=mk.real("u", (m, t), lo=-4, hi=4))
+
+    def call(self, inp, mk):
+        n, m, t = self.params["n"], self.params["m"], self.params["t"]
+        p = numpy.array(self.params["fafreq"], dtype=float).reshape(m, t)
+        alpha = self.params["alpha"]
+        tabs = {}
+        for enc in ENC:
+            C = _cls("GWGEBV", enc)
+            z, o = (0.0, 1.0) if enc == "Real" else (0, 1)
+            common = dict(ndecn=n, decn_space=numpy.arange(n) if enc == "Subset" else numpy.stack([numpy.repeat(z, n), numpy.repeat(o, n)]),
+                          decn_space_lower=numpy.repeat(z, n), decn_space_upper=numpy.repeat(n - 1 if enc == "Subset" else o, n), nobj=t)
+            pp = p.copy()
+            prob = C.from_numpy(inp["Z"], inp["u"], pp, alpha, **common)
+            tabs[enc] = prob.gwgebv
+            tabs[enc + ":p_unchanged"] = bool(numpy.array_equal(pp, p))
+        return tabs
+
+    def check(self, P, inp, out):
+        n, m, t = self.params["n"], self.params["m"], self.params["t"]
+        p = numpy.array(self.params["fafreq"], dtype=float).reshape(m, t)
+        alpha = self.params["alpha"]
+        for enc in ENC:
+            P.prove(out[enc + ":p_unchanged"], "frequency-argument-untouched")
+            for i in range(n):
+                for tr in range(t):
+                    ref = 0.0
+                    for k in range(m):
+                        w = float(p[k, tr]) ** (-alpha) if p[k, tr] > 0 else 1.0
+                        ref = ref + cell(inp["Z"], i, k) * cell(inp["u"], k, tr) * w
+                    P.prove(P.close(cell(out[enc], i, tr), ref), "table=Z.(u*w) with w=p^-alpha (1 where the favourable allele is absent)", detail="%s encoding" % enc)
+
+
 def obligations(tier):
     obs = []
+    for fafreq, alpha in ([([0.0, 0.25], 1), ([1.0, 0.0], 0.5)] if tier == "quick" else [([0.0, 0.25], 1), ([1.0, 0.0], 0.5), ([0.0, 0.0], 0), ([0.5, 1.0], 2)]):
+        obs.append(GWFactory(n=2, m=2, t=1, fafreq=fafreq, alpha=alpha))
     for fam in FAMILIES:
         for n, t, S in ([(3, 1, [2, 0]), (2, 2, [1])] if tier == "quick" else [(3, 1, [2, 0]), (2, 2, [1]), (3, 2, [0, 1]), (4, 1, [3, 0, 1]), (3, 1, [1, 2])]):
             if FAMILIES[fam][3] in ("ocs", "mgr", "meh", "l2") and (n > 3 or (tier == "quick" and t > 1)):
@@ -437,6 +482,11 @@ def obligations(tier):
                 obs.append(Factory(fam=fam, enc=enc, n=2, t=1, unscale=unscale))
     for fam in ("MGR", "MEH"):
         obs.append(CholeskyFactory(fam=fam))
+    # optimal haploid / population value problems (harnesses shared with C18): table filled for a partial last memory chunk, OPV definition
+    from .C18 import OHVMat, OPVLatent
+    obs.append(OHVMat(sizes=[2], nblk=2, n=3, nparent=2, t=1, mem=2))
+    obs.append(OPVLatent(n=3, h=2, t=1, sel=[2, 0]))
+    obs.append(OPVLatent(n=3, h=2, t=1, sel=[1]))
     return obs
 
 
